@@ -50,6 +50,9 @@ class World:
     def canon(self):
         return (sk_state(self.h), frozenset(self.ref))
 
+    def apply_any(self, v):
+        return self.apply(v)
+
     def apply(self, v):
         fails = []
         before = sk_state(self.h)
@@ -69,12 +72,59 @@ class World:
             fails.append(f're-adding {v!r} changed len {n_before} -> {n_after}')
         if len(self.ref) <= self.warm and n_after != len(self.ref):
             fails.append(f'len={n_after} but exactly {len(self.ref)} distinct values (<= warm-up {self.warm}) were inserted')
-        if len(self.ref) <= self.warm:
-            key = frozenset(self.ref)
-            prev = self.order_seen.setdefault(key, after)
-            if prev != after:
-                fails.append('state in the exact range depends on the insertion order')
+        # the state is a function of the SET of inserted values (warm-up set, then register-wise maxima): reaching the same set along
+        # another order, in another sketch object or after other sketches were used in this process must give the same state
+        key = frozenset(self.ref)
+        prev = self.order_seen.setdefault(key, after)
+        if prev != after:
+            fails.append('state in the exact range depends on the insertion order' if len(self.ref) <= self.warm else
+                         f'state after {len(self.ref)} distinct values (> warm-up {self.warm}) differs from the state an earlier sketch of this process reached with the same set of values: it depends on the insertion order or on other sketch objects')
         return fails
+
+
+class PairWorld:
+    """two sketches alive in one process (the pipeline keeps one per column), every interleaving of insertions into either: each sketch
+    obeys the single-sketch rules and an insertion into one never changes the other (state and len)"""
+
+    def __init__(self, p, warm, order_seen):
+        self.w = {'A': World(p, warm, order_seen[0]), 'B': World(p, warm, order_seen[1])}
+        vals = [f'v{i}' for i in range(warm + 1)]
+        self.alpha = [f'A:{v}' for v in vals] + [f'B:{v}' for v in vals[:1]] + [f'B:u{i}' for i in range(warm)]    # B shares one value with A
+
+    def enabled(self):
+        return list(self.alpha)
+
+    def canon(self):
+        return (self.w['A'].canon(), self.w['B'].canon())
+
+    def apply(self, ev):
+        side, v = ev.split(':', 1)
+        other = self.w['B' if side == 'A' else 'A']
+        before = sk_state(other.h)
+        okb, nb = safe(len, other.h)
+        fails = [f'sketch {side}: {f}' for f in self.w[side].apply_any(v)]
+        after = sk_state(other.h)
+        oka, na = safe(len, other.h)
+        if after != before or (okb and oka and na != nb):
+            fails.append(f'adding {v!r} to sketch {side} changed the OTHER sketch (len {nb} -> {na}, {len(other.ref)} distinct values inserted there)')
+        return fails
+
+
+def sig_pair(hist, ev, fails):
+    return {'family': 'pair', 'kind': 'other_sketch_changed' if any('OTHER' in f for f in fails) else sig_of(hist, ev, fails)['kind']}
+
+
+def _pair(job):
+    p, warm, depth = job
+    st = Stats()
+    order_seen = ({}, {})
+    closed, n_states, reached = explore.bfs(lambda: PairWorld(p, warm, order_seen), max_depth=depth, stats=st, sig_of=sig_pair, sample_every=5000)
+    st.count('pair_states', n_states)
+    st.count('nontrivial', max(0, n_states - 1))
+    st.notes.append(f'pair p={p} warm={warm}: states={n_states} depth_bound={depth} reached={reached} closed={closed}')
+    if n_states < 50:
+        raise HarnessError('vacuous pair family')
+    return st
 
 
 def sig_of(hist, ev, fails):
@@ -214,11 +264,12 @@ def run(ctx):
     rjobs.append(('padded8', 0, WARM + 2 ** 16 if not ctx.thorough else 2 ** 21, False))    # one stream to the end of the stated range in the quick tier as well
     if ctx.thorough:
         rjobs += [('dec_desc', 0, n_real, False), ('lcg', 0, n_real, False), ('dec_asc', 4, n_real, False), ('lcg', 4, n_real, True)]
-    res = pmap(_dispatch, [('s', j) for j in jobs] + [('r', j) for j in rjobs] + [('p', None)])
+    pjobs = [(2, 2, 7), (3, 3, 9)] if not ctx.thorough else [(2, 2, 8), (3, 3, 9), (4, 4, 11)]   # both sketches can leave the warm-up within the depth bound
+    res = pmap(_dispatch, [('s', j) for j in jobs] + [('r', j) for j in rjobs] + [('p', None)] + [('pair', j) for j in pjobs])
     for st in res:
         ctx.stats.merge(st)
     ctx.exhaustive = True
-    ctx.extra['bounds'] = {'scaled': [{'p': p, 'warmup': w, 'depth': d} for p, w, d in jobs], 'real_streams': [list(j) for j in rjobs]}
+    ctx.extra['bounds'] = {'scaled': [{'p': p, 'warmup': w, 'depth': d} for p, w, d in jobs], 'real_streams': [list(j) for j in rjobs], 'pairs_of_sketches': [{'p': p, 'warmup': w, 'depth': d} for p, w, d in pjobs]}
     if ctx.stats.n['states'] < 100:
         raise HarnessError('vacuous')
 
@@ -227,6 +278,8 @@ def _dispatch(item):
     kind, job = item
     if kind == 'p':
         return _pipeline(job)
+    if kind == 'pair':
+        return _pair(job)
     return _scaled(job) if kind == 's' else _real_stream(job)
 
 
@@ -238,11 +291,33 @@ def eval_case(case):
         return [v['what'] for v in st.violations]
     hist = case['history']
     out = []
+    if hist and all(ev[:2] in ('A:', 'B:') for ev in hist):
+        for p, warm in [(2, 2), (3, 3), (4, 4)]:
+            seen = ({}, {})
+            w = PairWorld(p, warm, seen)
+            if any(ev not in w.alpha for ev in hist):
+                continue
+            # prelude: what the search had done in this process before - a pair that reached the same value sets in another order, and a pair that used every value
+            for pre in (sorted(set(hist)), list(w.alpha)):
+                w0 = PairWorld(p, warm, seen)
+                for ev in pre:
+                    w0.apply(ev)
+            fails = []
+            for ev in hist:
+                fails = w.apply(ev)
+            out += [f'pair p={p} warm-up={warm}: {f}' for f in fails]
+        return out
     configs = [(case['p'], case['warmup'])] if 'p' in case else [(3, 4), (4, 8), (2, 2), (3, 2)]
     for p, warm in configs:
-        w = World(p, warm, {})
+        seen = {}
+        w = World(p, warm, seen)
         if any(ev not in w.alpha for ev in hist):
             continue
+        # prelude: what the search had done in this process before - a sketch that reached the same value set in another order, and one that used every value
+        for pre in (sorted(set(hist)), list(w.alpha)):
+            w0 = World(p, warm, seen)
+            for ev in pre:
+                w0.apply(ev)
         fails = []
         for ev in hist:
             fails = w.apply(ev)
